@@ -25,6 +25,11 @@
 #include "remote/filterutility.hpp"
 #include "remote/eventqueue.hpp"
 #include "remote/consolehandler.hpp"
+#include "base/application.hpp"
+#include "base/logger.hpp"
+#include "base/scriptframe.hpp"
+#include "base/dependencygraph.hpp"
+#include "icinga/icingaapplication.hpp"
 #include <boost/beast/http.hpp>
 #include <fstream>
 #include <set>
@@ -116,6 +121,12 @@ static void SbRestoreFixture()
 }
 
 // ------------------------------------------------------------------ deep snapshot
+// container ATTRIBUTES are part of the snapshot, not only the contents: the frozen flag of every Array / Dictionary / Namespace
+// (a frozen live container makes every later in-place modification by the system throw).  l_SbFrozenSink collects the frozen
+// containers a snapshot met, so that the harness can undo a freeze a probe caused (already a violation) before the next probe.
+static std::set<Object *> *l_SbFrozenSink = nullptr;
+static void NoteFrozen(Object *o, bool frozen) { if (frozen && l_SbFrozenSink) l_SbFrozenSink->insert(o); }
+
 static void Dump(const Value& v, std::ostream& o, int depth, std::set<const Object *>& seen)
 {
 	if (!v.IsObject()) { o << JsonEncode(v); return; }
@@ -129,7 +140,8 @@ static void Dump(const Value& v, std::ostream& o, int depth, std::set<const Obje
 	seen.insert(obj.get());
 	if (Namespace::Ptr ns = dynamic_pointer_cast<Namespace>(obj)) {
 		ObjectLock olock(ns);
-		o << "ns{";
+		NoteFrozen(ns.get(), ns->m_Frozen.load());
+		o << "ns" << (ns->m_Frozen.load() ? "#frozen" : "") << "{";
 		for (const Namespace::Pair& kv : ns) {
 			o << kv.first << (kv.second.Const ? "!" : "") << "=";
 			Dump(kv.second.Val, o, depth + 1, seen);
@@ -138,12 +150,14 @@ static void Dump(const Value& v, std::ostream& o, int depth, std::set<const Obje
 		o << "}";
 	} else if (Dictionary::Ptr d = dynamic_pointer_cast<Dictionary>(obj)) {
 		ObjectLock olock(d);
-		o << "{";
+		NoteFrozen(d.get(), d->m_Frozen);
+		o << (d->m_Frozen ? "#frozen" : "") << "{";
 		for (const Dictionary::Pair& kv : d) { o << kv.first << "="; Dump(kv.second, o, depth + 1, seen); o << ";"; }
 		o << "}";
 	} else if (Array::Ptr a = dynamic_pointer_cast<Array>(obj)) {
 		ObjectLock olock(a);
-		o << "[";
+		NoteFrozen(a.get(), a->m_Frozen);
+		o << (a->m_Frozen ? "#frozen" : "") << "[";
 		for (const Value& x : a) { Dump(x, o, depth + 1, seen); o << ","; }
 		o << "]";
 	} else {
@@ -220,7 +234,8 @@ static SbSnap Snapshot(const std::string& session)
 			Dictionary::Ptr p = dynamic_pointer_cast<Dictionary>(type->GetPrototype());
 			if (!p) continue;
 			ObjectLock olock(p);
-			o << type->GetName() << ":";
+			NoteFrozen(p.get(), p->m_Frozen);
+			o << type->GetName() << (p->m_Frozen ? "#frozen" : "") << ":";
 			for (const Dictionary::Pair& kv : p) { std::set<const Object *> seen; o << kv.first << "="; Dump(kv.second, o, 1, seen); o << ","; }
 			o << ";";
 		}
@@ -230,6 +245,27 @@ static SbSnap Snapshot(const std::string& session)
 		std::ostringstream o;
 		ScanDir(ScratchDir(), o);
 		s["files"] = o.str();
+	}
+	{
+		// PROCESS-GLOBAL singletons and registries that no value snapshot sees (identity of the instance, not its fields)
+		std::ostringstream o;
+		o << "app=" << (const void *)Application::m_Instance.get() << ";icingaapp=" << (const void *)IcingaApplication::GetInstance().get()
+		  << ";apilistener=" << (const void *)ApiListener::m_Instance.get()
+		  << ";shutting_down=" << Application::m_ShuttingDown << ";restart=" << Application::m_RequestRestart
+		  << ";reopen_logs=" << Application::m_RequestReopenLogs << ";script_debugger=" << Application::m_ScriptDebuggerEnabled
+		  << ";loggers=" << Logger::GetLoggers().size() << ";console_log=" << Logger::IsConsoleLogEnabled()
+		  << ";console_severity=" << (int)Logger::GetConsoleLogSeverity() << ";timestamp=" << Logger::IsTimestampEnabled()
+		  << ";types=" << Type::GetAllTypes().size() << ";event_queues=" << EventQueueRegistry::GetInstance()->GetItems().size()
+		  << ";frame_stack=" << (ScriptFrame::m_ScriptFrames.get() ? ScriptFrame::m_ScriptFrames.get()->size() : 0);
+		{
+			std::unique_lock<std::mutex> lock(DependencyGraph::m_Mutex);
+			o << ";dependency_graph=" << DependencyGraph::m_Dependencies.size();
+		}
+		for (const Type::Ptr& type : Type::GetAllTypes()) {
+			auto *ct = dynamic_cast<ConfigType *>(type.get());
+			if (ct) o << ";n_" << type->GetName() << "=" << ct->GetObjectCount();
+		}
+		s["singletons"] = o.str();
 	}
 	if (!session.empty()) {
 		// what the session keeps between requests, read through the (unsandboxed) console API itself
@@ -444,17 +480,49 @@ VOP(sb_probe)
 	bool marker = a.num("marker", 0) != 0;
 	bool leak = a.num("leak", 0) != 0;
 	std::string session = "sbsession" + std::to_string(CaseId());
+	// outer=1: the entry point is called while a NON-sandboxed ScriptFrame lies on the thread's frame stack (config / unsandboxed
+	// console code that causes the event); outer=2: from inside a native function run through Function::Invoke (what the built-in
+	// check functions do when they call ProcessCheckResult): ScriptFrame::InitializeFrame copies Sandboxed from the stack top
+	int outer = a.num("outer", 0);
+	std::set<Object *> frozenBefore, frozenAfter;
+	l_SbFrozenSink = &frozenBefore;
 	SbSnap before = Snapshot(mode == "console" ? session : "");
+	l_SbFrozenSink = nullptr;
+	Application::Ptr appBefore = Application::m_Instance;
+	ApiListener::Ptr listenerBefore = ApiListener::m_Instance;
 	SbResult r;
 	l_SbMarkHit = false;
-	if (mode == "filter") r = RunFilter(code);
-	else if (mode == "filterperm") r = RunFilter(code, true);
-	else if (mode == "event") r = RunEvent(code, false);
-	else if (mode == "inbox") r = RunEvent(code, true);
-	else r = RunConsole(code, session);
+	auto run = [&]() {
+		if (mode == "filter") r = RunFilter(code);
+		else if (mode == "filterperm") r = RunFilter(code, true);
+		else if (mode == "event") r = RunEvent(code, false);
+		else if (mode == "inbox") r = RunEvent(code, true);
+		else r = RunConsole(code, session);
+	};
+	if (outer == 1) {
+		ScriptFrame outerFrame(true);
+		run();
+	} else if (outer == 2) {
+		Function::Ptr f = new Function("sbouter", [&run](const std::vector<Value>&) -> Value { run(); return Empty; }, {});
+		f->Invoke();
+	} else {
+		run();
+	}
+	l_SbFrozenSink = &frozenAfter;
 	SbSnap after = Snapshot(mode == "console" ? session : "");
+	l_SbFrozenSink = nullptr;
 	std::string diff = DiffSnap(before, after);
-	if (!diff.empty() && a.num("restore", 0) != 0) SbRestoreFixture();
+	if (!diff.empty() && a.num("restore", 0) != 0) {
+		// undo what value assignments cannot: process-global instances and freeze flags set by the probe
+		if (Application::m_Instance != appBefore) Application::m_Instance = appBefore;
+		if (ApiListener::m_Instance != listenerBefore) ApiListener::m_Instance = listenerBefore;
+		for (Object *o : frozenAfter) {
+			if (frozenBefore.count(o)) continue;
+			if (auto *arr = dynamic_cast<Array *>(o)) arr->m_Frozen = false;
+			else if (auto *d = dynamic_cast<Dictionary *>(o)) d->m_Frozen = false;
+		}
+		SbRestoreFixture();
+	}
 	bool hidden = HasSecret(r.text) || (leak && r.res == "ok" && r.truthy);
 	std::string verdict = "-";
 	if (marker)
